@@ -31,6 +31,15 @@ Theorem C09_replies_to_own_address : forall g ts s c w a,
   exists k, get s c = Some k /\ caddr k = a.
 Proof. exact writes_own. Qed.
 
+(* across successive associations of one address: in the order in which the loop handed
+   datagrams over ([routes], a subsequence of the arrival order; [routed_to c] is its part for
+   association c, of which [reads_of c] is a subsequence), a later datagram of the same address
+   never goes to an older association *)
+Theorem C09_successive_associations_in_order : forall g ts s l1 p1 c1 l2 p2 c2 l3,
+  run g init ts = Some s ->
+  routes (trace s) = l1 ++ (p1, c1) :: l2 ++ (p2, c2) :: l3 -> src p1 = src p2 -> c1 <= c2.
+Proof. exact routes_monotone. Qed.
+
 (* ---- fresh_after_end ---- *)
 
 (* once the loop has processed the close notification of the association that owns address a,
@@ -119,6 +128,8 @@ Theorem C09_accept_own : forall g ts s, run g init ts = Some s -> own_ok (trace 
 Proof. exact own_ok_run. Qed.
 Theorem C09_accept_order : forall g ts s, run g init ts = Some s -> order_ok (trace s) = true.
 Proof. exact order_ok_run. Qed.
+Theorem C09_accept_causal : forall g ts s, run g init ts = Some s -> causal_ok (trace s) = true.
+Proof. exact causal_ok_run. Qed.
 Theorem C09_accept_fresh : forall g ts s,
   notify_identity g = true -> run g init ts = Some s -> fresh_ok (trace s) = true.
 Proof. exact fresh_ok_run. Qed.
@@ -144,6 +155,7 @@ Proof. exact src_stale_witness_harmless. Qed.
 Print Assumptions C09_per_client_in_order.
 Print Assumptions C09_reads_only_own_address.
 Print Assumptions C09_replies_to_own_address.
+Print Assumptions C09_successive_associations_in_order.
 Print Assumptions C09_fresh_after_end.
 Print Assumptions C09_next_datagram_creates.
 Print Assumptions C09_fresh_as_soon_as_closed.
@@ -158,6 +170,7 @@ Print Assumptions C09_stale_close_deletes_fresh_entry_refuted.
 Print Assumptions C09_src_shape_ok.
 Print Assumptions C09_accept_own.
 Print Assumptions C09_accept_order.
+Print Assumptions C09_accept_causal.
 Print Assumptions C09_accept_fresh.
 Print Assumptions C09_demo_two_clients.
 Print Assumptions C09_src_survives_panic_witness.
